@@ -350,7 +350,7 @@ class C13(Check):
         from . import designs as DS
         if not hasattr(self, 'pkit'): self.pkit = ProjectKit(self, log=self.log)
         q = self.tier == 'quick'
-        ds = [DS.MUT_DESIGN, DS.DESIGNS[4]] + ([] if q else [DS.DESIGNS[3]])
+        ds = [DS.MUT_DESIGN, DS.D_SEM] + ([] if q else [DS.D_COMB])
         ps.append(AnalysisInvariance('analysis: letter case of one identifier or keyword', ds, 'case', stride=12 if q else 1, offset=self.seed % 12 if q else 0,
                                      required=('compared', 'diagnostics present', 'quoted name re-spelled')))
         ps.append(AnalysisInvariance('analysis: re-layout at one gap between tokens', ds, 'layout', stride=24 if q else 1, offset=self.seed % 24 if q else 0,
